@@ -8,10 +8,12 @@ their factory type, in declaration order; `firstWithKey S k` is the first of the
 after expansion it carries the abstract struct's `discriminator` attribute by C05's `attributes_inherited_in_order`).
 
 Unaligned marks: `Demanded S seeds` is the closure of the property's three rules (seeds = aligned element types of arrays in
-unaligned structs; descendants of marked factories; struct typed members of those descendants).  `unaligned_upper` holds for every
-schema and every iteration order.  The lower bound and the order independence C03 cites need `NoDerivedMemberTypes S`: no member
-type of a struct that records a factory type records one itself.  Without it the Python result depends on the iteration order of
-a `set` (shown on the real code by the harness, see known_findings.jsonl); both shipped sets satisfy the condition.
+unaligned structs; descendants of marked factories; struct typed members of those descendants).  The model mirrors
+`_propagate_unaligned` as repaired by fixes/c18-propagate-unaligned.diff: a member type gets the mark but does not enter
+`already_marked`, so `already_marked` holds exactly the descendants whose members have been visited.  With that, the marks are
+the closure for every schema and every iteration order of the `set` of struct names: `unaligned_upper`, `unaligned_lower` and
+`propagateUnaligned_order_irrelevant` carry no side condition any more.  (Before the repair the result depended on the order when
+a member type of a marked descendant was itself a descendant; the harness shows that on an unrepaired tree.)
 -/
 import SymbolVerif.Proofs.CatsDerive
 namespace SymbolVerif.C18
@@ -295,10 +297,9 @@ theorem unaligned_empty {S : Schema} {order req : List String} (h : propagateUna
   | nil => rfl
   | cons x rest => exact absurd (unaligned_upper h x List.mem_cons_self) (not_demanded_nil S x)
 
-/-- **unaligned_lower**: everything the rules demand - and all of their closure - is marked, provided the iteration visits every
-    struct that records a factory type (the Python set holds all struct names) and no member type of such a struct records a
-    factory type itself -/
-theorem unaligned_lower {S : Schema} {order seeds req : List String} (hside : NoDerivedMemberTypes S)
+/-- **unaligned_lower**: everything the rules demand - and all of their closure - is marked, for every schema, provided the
+    iteration visits every struct that records a factory type (the Python set holds all struct names) -/
+theorem unaligned_lower {S : Schema} {order seeds req : List String}
     (hcover : ∀ n, factoryOf S n ≠ none → n ∈ order) (h : propagateUnaligned S order seeds = .ok req) :
     ∀ n, Demanded S seeds n → n ∈ req := by
   unfold propagateUnaligned at h
@@ -307,20 +308,23 @@ theorem unaligned_lower {S : Schema} {order seeds req : List String} (hside : No
   | ok st =>
     simp [hl, Functor.map, Except.map] at h
     subst h
-    obtain ⟨hinv, hclosed⟩ := unalignedLoop_closed hside _ _ _ hl (initial_inv S seeds)
+    obtain ⟨hinv, hclosed⟩ := unalignedLoop_closed _ _ _ hl (initial_inv S seeds)
     exact demanded_subset_closed hcover hinv.seeds_in hclosed
 
-/-- **propagateUnaligned_order_irrelevant** (cited by C03): under the same side condition two iteration orders that both visit
-    every struct recording a factory type mark exactly the same structs -/
+/-- the marks are exactly the closure of the three rules -/
+theorem unaligned_exact {S : Schema} {order seeds req : List String}
+    (hcover : ∀ n, factoryOf S n ≠ none → n ∈ order) (h : propagateUnaligned S order seeds = .ok req) :
+    ∀ n, n ∈ req ↔ Demanded S seeds n :=
+  fun n => ⟨unaligned_upper h n, unaligned_lower hcover h n⟩
+
+/-- **propagateUnaligned_order_irrelevant** (cited by C03): two iteration orders that both visit every struct recording a factory
+    type mark exactly the same structs - for every schema, no side condition -/
 theorem propagateUnaligned_order_irrelevant {S : Schema} {order1 order2 seeds req1 req2 : List String}
-    (hside : NoDerivedMemberTypes S)
     (hcover1 : ∀ n, factoryOf S n ≠ none → n ∈ order1) (hcover2 : ∀ n, factoryOf S n ≠ none → n ∈ order2)
     (h1 : propagateUnaligned S order1 seeds = .ok req1) (h2 : propagateUnaligned S order2 seeds = .ok req2) :
     ∀ n, n ∈ req1 ↔ n ∈ req2 := by
   intro n
-  constructor
-  · intro hn; exact unaligned_lower hside hcover2 h2 n (unaligned_upper h1 n hn)
-  · intro hn; exact unaligned_lower hside hcover1 h1 n (unaligned_upper h2 n hn)
+  rw [unaligned_exact hcover1 h1, unaligned_exact hcover2 h2]
 
 /-! ## non-vacuity -/
 
@@ -344,6 +348,35 @@ example : (buildFactoryMap exampleSchema).toOption =
 example : (requiresUnaligned exampleSchema ["Holder", "DescA", "Fac", "ElemA"]).toOption = some ["Fac", "DescA", "ElemA"] := by decide
 
 example : (requiresUnaligned exampleSchema ["ElemA", "Fac", "DescA", "Holder"]).toOption = some ["Fac", "DescA", "ElemA"] := by decide
+
+/-- the schema on which the unrepaired code gave two answers: a member type (`Tt`) of a marked descendant (`Dd`) that itself derives
+    from a factory (`Gg`) marked in the same pass -/
+def orderExample : Schema :=
+  let u8 : FieldType := .int ⟨true, 1, none⟩
+  [ .struct { name := "Holder", fields := [.field { name := "count", fieldType := u8 },
+                                           .field { name := "items", fieldType := .array ⟨.named "Ff", .str "count", {}⟩ }] },
+    .struct { name := "Uu", fields := [.field { name := "xx", fieldType := u8 }] },
+    .struct { disposition := some "abstract", name := "Ff", fields := [.field { name := "kind", fieldType := u8 }],
+              attributes := some [⟨"is_aligned", []⟩] },
+    .struct { disposition := some "abstract", name := "Gg", factoryType := some "Ff",
+              fields := [.field { name := "kind", fieldType := u8 }], attributes := some [⟨"is_aligned", []⟩] },
+    .struct { name := "Tt", factoryType := some "Gg", fields := [.field { name := "kind", fieldType := u8 },
+                                                                .field { name := "uu", fieldType := .named "Uu" }],
+              attributes := some [⟨"is_aligned", []⟩] },
+    .struct { name := "Dd", factoryType := some "Ff", fields := [.field { name := "kind", fieldType := u8 },
+                                                                .field { name := "tt", fieldType := .named "Tt" }],
+              attributes := some [⟨"is_aligned", []⟩] } ]
+
+example : ¬ NoDerivedMemberTypes orderExample := by
+  intro h
+  have := h "Dd" "Ff" (by decide) "Tt" (by decide)
+  revert this; decide
+
+example : (requiresUnaligned orderExample ["Tt", "Gg", "Dd", "Ff", "Uu", "Holder"]).toOption = some ["Ff", "Gg", "Dd", "Tt", "Uu"] := by
+  decide
+
+example : (requiresUnaligned orderExample ["Gg", "Tt", "Dd", "Ff", "Uu", "Holder"]).toOption = some ["Ff", "Gg", "Tt", "Dd", "Uu"] := by
+  decide
 
 /-
 Stated, not proved:
